@@ -139,6 +139,14 @@ class DynV:
         self.ty, self.val = ty, val
 
 
+class PyFn:
+    """driver-supplied callable standing for a closure / fn value (e.g. an abstract per-item predicate)"""
+    __slots__ = ('fn',)
+
+    def __init__(self, fn):
+        self.fn = fn
+
+
 class Opaque:
     """value whose content is irrelevant (formatted strings, errors)"""
     __slots__ = ('what',)
@@ -750,6 +758,9 @@ def f_asin(q):
         return q
     if MODE[0] == 'conc':
         return math.asin(q) if -1 <= q <= 1 else float('nan')
+    fq = as_fraction(q)
+    if fq is not None and fq in (1, 0, -1):
+        return Angle({1: Fraction(1, 2), 0: Fraction(0), -1: Fraction(-1, 2)}[int(fq)])
     if branch(z3.Or(q > 1, q < -1)):
         ctx().events.append('asin out of range')
         return Poison('nan', 'asin outside [-1, 1]')
@@ -764,6 +775,9 @@ def f_acos(q):
         return q
     if MODE[0] == 'conc':
         return math.acos(q) if -1 <= q <= 1 else float('nan')
+    fq = as_fraction(q)
+    if fq is not None and fq in (1, 0, -1):
+        return Angle({1: Fraction(0), 0: Fraction(1, 2), -1: Fraction(1)}[int(fq)])
     if branch(z3.Or(q > 1, q < -1)):
         ctx().events.append('acos out of range')
         return Poison('nan', 'acos outside [-1, 1]')
